@@ -13,7 +13,7 @@ use rlib_io::{Reader, Writer};
 use rlib_mint::Modular;
 
 /// moduli inside the property's domain that are not in 2..=64
-const BIG: [u32; 8] = [
+const BIG: [u32; 12] = [
     998244353,  // competition prime
     1000000007, // competition prime
     2147483647, // 2^31 - 1 (prime)
@@ -22,6 +22,10 @@ const BIG: [u32; 8] = [
     2147483645, // 2^31 - 3 (composite)
     65536,      // power of two
     15015,      // 3*5*7*11*13
+    1073741824, // 2^30: the largest power of two in the domain
+    46341,      // M^2 just above 2^31 (46341 = 3*15447)
+    46340,      // M^2 just below 2^31
+    46337,      // prime next to sqrt(2^31)
 ];
 /// moduli outside the domain (`S any`): the model mirrors the wrapping casts / overflow panics
 const OOD: [u32; 4] = [1, 2147483648, 2147483649, 4294967295];
@@ -40,6 +44,7 @@ fn dispatch_modulus(m: u32, op: &str, args: &[&str]) -> Option<String> {
         2 3 4 5 6 7 8 9 10 11 12 13 14 15 16 17 18 19 20 21 22 23 24 25 26 27 28 29 30 31 32 33
         34 35 36 37 38 39 40 41 42 43 44 45 46 47 48 49 50 51 52 53 54 55 56 57 58 59 60 61 62 63 64
         998244353 1000000007 2147483647 2147483629 2147483646 2147483645 65536 15015
+        1073741824 46341 46340 46337
         1 2147483648 2147483649 4294967295)
 }
 
@@ -101,6 +106,8 @@ fn run_m<const M: u32>(op: &str, args: &[&str]) -> String {
                     if z < m && (z * yv) % m == (xv * g) % m { "ok".into() } else { "bad".into() }
                 }
             };
+            // the property constrains `/` only for divisors coprime to M
+            let div_view = if gcd_u128(y.inner() as u128, m) != 1 { "any".to_string() } else { div_view };
             let raw = format!("add={} sub={} mul={} div={} eq={}", val(&add), val(&sub), val(&mul), val(&div), eq_s);
             let view = format!("add={} sub={} mul={} div={} eq={}", val(&add), val(&sub), val(&mul), div_view, eq_s);
             out2(&raw, &view)
@@ -121,6 +128,7 @@ fn run_m<const M: u32>(op: &str, args: &[&str]) -> String {
                     if r < m && (r * xv) % m == g % m { "ok".into() } else { "bad".into() }
                 }
             };
+            let inv_view = if gcd_u128(x.inner() as u128, m) != 1 { "any".to_string() } else { inv_view };
             let fmt = format!("{}/{:?}", x, x);
             out2(
                 &format!("neg={} inv={} fmt={}", val(&neg), val(&inv), fmt),
@@ -138,15 +146,23 @@ fn run_m<const M: u32>(op: &str, args: &[&str]) -> String {
         }
         "io" => {
             let v = p(0);
-            let w = match catch(|| Modular::<M>::new(v)) {
-                Err(e) => e,
+            // w: bytes of Writable; rt: those bytes (plus a newline) read back through a real Reader
+            let (w, rt) = match catch(|| Modular::<M>::new(v)) {
+                Err(e) => (e.clone(), e),
                 Ok(x) => {
                     let mut buf: Vec<u8> = Vec::new();
                     {
                         let mut wr = Writer::new(Box::new(&mut buf));
                         wr.write(&x);
                     }
-                    String::from_utf8_lossy(&buf).replace(' ', "_").replace('\n', "\\n")
+                    let w = String::from_utf8_lossy(&buf).replace(' ', "_").replace('\n', "\\n");
+                    buf.push(b'\n');
+                    let rt = catch(move || {
+                        let mut rd = Reader::new(Box::new(&buf[..]));
+                        let y: Modular<M> = rd.read();
+                        y
+                    });
+                    (w, val(&rt))
                 }
             };
             let tok = format!("{}\n", args[0]);
@@ -155,7 +171,7 @@ fn run_m<const M: u32>(op: &str, args: &[&str]) -> String {
                 let x: Modular<M> = rd.read();
                 x
             });
-            out1(&format!("w={} r={}", w, val(&r)))
+            out1(&format!("w={} r={} rt={}", w, val(&r), rt))
         }
         _ => "I bad-op | V bad-op".to_string(),
     }
@@ -173,6 +189,11 @@ fn run_case(line: &str) -> String {
     let op = toks[0];
     let args = &toks[2..];
     match dispatch_modulus(m, op, args) {
+        // outside the property's domain nothing is pinned: raw is the constant `ood`, the result is only shown
+        Some(s) if OOD.contains(&m) => match s.split_once(" | V ") {
+            Some((raw, _)) => format!("I ood | V {}", &raw[2..]),
+            None => s,
+        },
         Some(s) => s,
         None => "I unsupported-modulus | V unsupported-modulus".to_string(),
     }
@@ -289,6 +310,7 @@ impl<'a> Gen<'a> {
         (self.emit)(format!("pair {} {} {}", m, a, b));
         let c = class_of(m);
         self.st.bump(&format!("pair_{}_{}", c, how));
+        self.st.add("assigning_forms_evaluated(+=,-=,*=,/=)", 4);
         if c != "ood" {
             let mm = m as i128;
             let (ra, rb) = ((a as i128).rem_euclid(mm), (b as i128).rem_euclid(mm));
@@ -362,6 +384,12 @@ impl<'a> Gen<'a> {
     fn io(&mut self, m: u32, v: i64, how: &str) {
         (self.emit)(format!("io {} {}", m, v));
         self.st.bump(&format!("io_{}_{}", class_of(m), how));
+        if v >= 1 << 31 || v < -(1 << 31) {
+            self.st.bump("io_token_outside_i32");
+        }
+        if v < 0 {
+            self.st.bump("io_token_negative");
+        }
     }
 }
 
